@@ -83,19 +83,26 @@ def consume(target, queue, depth=0):
     return consume(left, queue, depth + 1) and consume(right, queue, depth + 1)
 
 
-def run_subdivide(nodes, flat, as_tuples=False, judge_curve=True, monitor=True):
+def run_subdivide(nodes, flat, as_tuples=False, judge_curve=True, monitor=True, share=False):
     """nodes: tuple of (handle_in, point, handle_out) tuples.  Returns [(clause, msg)], splits.
     as_tuples: hand the points over as (x, y) tuples instead of [x, y] lists (the function
     itself inserts tuples, so both representations occur in its own intermediate states)."""
     plot_utils = _lib()
     conv = tuple if as_tuples else list
+    if share:
+        # equal points are one list object (a path built by copying references: a corner node
+        # whose handles *are* its vertex, two handles meeting in one point): the function may
+        # rebind the handles it owns, it must not write into a point it was given
+        pool = {}
+        conv = lambda pnt: pool.setdefault(tuple(pnt), list(pnt))      # noqa: E731
     s_p = [[conv(h_in), conv(pt), conv(h_out)] for (h_in, pt, h_out) in nodes]
     originals = list(s_p)
     start = snapshot(s_p)
     shown = [tuple(map(tuple, n)) for n in s_p[:80]]
     desc = (f"subdivideCubicPath({shown}, {flat})" if len(s_p) <= 80 else
             f"subdivideCubicPath(<{len(s_p)} nodes beginning {shown[:3]}>, {flat})") + \
-        (" [points given as tuples]" if as_tuples else "")
+        (" [points given as tuples]" if as_tuples else "") + \
+        (" [equal points given as one shared list object]" if share else "")
     real_bezmisc = plot_utils.bezmisc
     states = [start]
     problems = []
@@ -343,6 +350,16 @@ def _chunk(args):
             if splits:
                 part.count("nontrivial")
             part.counters["max_splits"] = max(part.counters.get("max_splits", 0), splits)
+            flat_pts = [tuple(p) for n in nodes for p in n]
+            if kind in ("one", "two", "raw") and flat in (0.3, 1.0) and \
+                    len(set(flat_pts)) < len(flat_pts):
+                shared_bad, _n = run_subdivide(nodes, flat, share=True)
+                part.count("calls")
+                part.count("shared_object_calls")
+                for clause, msg in shared_bad:
+                    part.violation(f"{clause}:{kind}:{tag}:{flat}:shared", msg,
+                                   {"kind": "curve", "nodes": [[list(p) for p in n] for n in nodes],
+                                    "flat": flat, "share": True})
             for clause, msg in bad:
                 part.violation(f"{clause}:{kind}:{tag}:{flat}", msg,
                                {"kind": "curve", "nodes": [[list(p) for p in n] for n in nodes],
@@ -396,7 +413,8 @@ def run(ctx):
         "rule": "all one-piece curves with 4 control points on the 3x3 lattice (6561) x flatness "
                 f"{flats}; two-piece node lists over a 5-point sub-lattice (5^7, every 9th in "
                 "quick); the one-piece curves again with points given as tuples (flatness 0.3, 1.0); "
-                "empty and single-node lists; six chained lists of 10..60 nodes; eight (thorough nine) of "
+                "every lattice curve with a repeated point again with equal points given as one shared "
+                "list object (flatness 0.3, 1.0); empty and single-node lists; six chained lists of 10..60 nodes; eight (thorough nine) of "
                 "255, 256, 257, 511, 512, 513, 1025, 1300 (4097) nodes; every 5th "
                 "one strongly curved piece at flatness 2^-23 (about 2^16 pieces, 16 halvings in a row); 36 x 2 long nearly straight pieces (flatness 4e-9 of the chord, control points 0.5..8 flatness units off it); (thorough: every) one-piece curve again unscaled but shifted by (2^31, -2^30), and scaled by 2^16 and shifted by (2^20, "
                 "-2^21), which must give the image of the unscaled result; states = node lists observed after every "
@@ -417,4 +435,5 @@ def replay(case):
     if case["kind"] == "similar":
         return [m for _c, m in check_similarity(nodes, case["flat"])]
     return [m for _c, m in run_subdivide(nodes, case["flat"], case.get("as_tuples", False),
-                                         case.get("judge_curve", True), case.get("monitor", True))[0]]
+                                         case.get("judge_curve", True), case.get("monitor", True),
+                                         case.get("share", False))[0]]
